@@ -102,6 +102,54 @@ fn check_expand(c: &ExpandCase, info: &mut Info) -> Result<(), String> {
     Ok(())
 }
 
+// ---- related requests back to back ---------------------------------------------------------------------
+
+#[derive(Clone, Debug, Serialize, Deserialize, PartialEq, Eq, Hash)]
+pub enum ExpVariant {
+    Same,
+    OtherDst(BytesR),
+    OtherMsg(BytesR),
+    OtherLen(LenR),
+    OtherExpander(u8),
+}
+
+#[derive(Clone, Debug, Serialize, Deserialize, PartialEq, Eq, Hash)]
+pub struct ExpandSeq {
+    pub base: ExpandCase,
+    pub variants: Vec<ExpVariant>,
+}
+
+fn expand_seq_strategy() -> BoxedStrategy<ExpandSeq> {
+    let v = prop_oneof![
+        1 => Just(ExpVariant::Same),
+        3 => dst_strategy().prop_map(ExpVariant::OtherDst),
+        3 => msg_strategy().prop_map(ExpVariant::OtherMsg),
+        3 => len_strategy().prop_map(ExpVariant::OtherLen),
+        2 => (0u8..4).prop_map(ExpVariant::OtherExpander),
+    ];
+    (expand_case_strategy(), proptest::collection::vec(v, 1..5)).prop_map(|(base, variants)| ExpandSeq { base, variants }).boxed()
+}
+
+fn check_expand_seq(c: &ExpandSeq, info: &mut Info) -> Result<(), String> {
+    let mut cur = c.base.clone();
+    let mut tmp = Info::default();
+    check_expand(&cur, &mut tmp)?;
+    for v in &c.variants {
+        match v {
+            ExpVariant::Same => {}
+            ExpVariant::OtherDst(d) => cur.dst = d.clone(),
+            ExpVariant::OtherMsg(m) => cur.msg = m.clone(),
+            ExpVariant::OtherLen(l) => cur.len = l.clone(),
+            ExpVariant::OtherExpander(e) => cur.expander = *e,
+        }
+        let mut tmp = Info::default();
+        check_expand(&cur, &mut tmp).map_err(|m| format!("after a related request: {}", m))?;
+    }
+    info.nt();
+    info.class(format!("requests={}", 1 + c.variants.len()));
+    Ok(())
+}
+
 // ---- reduction of blocks ---------------------------------------------------------------------
 
 #[derive(Clone, Debug, Serialize, Deserialize, PartialEq, Eq, Hash)]
@@ -275,6 +323,7 @@ pub fn def() -> PropDef {
         needs_pairing: false,
         subs: vec![
             Box::new(Sub { name: "expand-message", rule: "bytes equal the RFC; requests beyond 255 blocks abort", quick: 60_000, thorough: 250_000, strategy: || boxed(expand_case_strategy()), check: check_expand }),
+            Box::new(Sub { name: "related-requests", rule: "a request followed back to back by 1..4 related requests (other tag, other message, other length, other expander, same again), each compared with the model", quick: 4_000, thorough: 100_000, strategy: || boxed(expand_seq_strategy()), check: check_expand_seq }),
             Box::new(Sub { name: "block-reduction", rule: "from_okm / from_ro == OS2IP(block) mod p for Fq (64), Fr (48), Fq2 (2 x 64, real first)", quick: 200_000, thorough: 1_000_000, strategy: || boxed(okm_strategy()), check: check_okm }),
             Box::new(Sub { name: "hash-to-field", rule: "hash_to_field::<Fq|Fr|Fq2, expander>(msg, dst, count) == consecutive reduced blocks of the model expansion", quick: 40_000, thorough: 150_000, strategy: || boxed(h2f_strategy()), check: check_h2f }),
             super::corpus_sub_expand(),
